@@ -66,7 +66,21 @@ def basis_name(basis):
 
 # Bases without unary operators: few functions per complexity, so complexity 7 (functions with 3 and 4 parameters) is affordable
 DEEP = [([["x", "a"], [], ["+", "*"]], 7), ([["x", "a"], [], ["+", "*"]], 5), ([["x", "a"], [], ["+", "-"]], 7), ([["x", "a"], [], ["*", "/"]], 7),
-        ([["x", "a"], [], ["*", "pow"]], 5), ([["a", "x"], [], ["+", "*", "-"]], 5)]
+        ([["x", "a"], [], ["*", "pow"]], 5), ([["a", "x"], [], ["+", "*", "-"]], 5),
+        # long operator names at complexity 7-8: label arrays and function texts beyond the 75/80-character line widths
+        ([["x", "a"], ["log10_abs"], []], 7), ([["x", "a"], ["log10_abs", "sqrt_abs"], []], 8), ([["x", "a"], ["log10_abs"], ["*"]], 7)]
+
+
+def micro(rng):
+    """One unary, one binary operator, complexity 3: four labelled trees for the binary shape, two for the unary one, and the
+    first tree (x op x, u(u(x))) is the one most likely to have a rewritten twin - so 5..16 ranks leave ranks without a share
+    exactly where extra trees are found."""
+    out = []
+    for b2 in BINARY:
+        u = rng.choice(UNARY)
+        b = [["x", "a"], [u], [b2]]
+        out.append(dict(runname=basis_name(b), basis=b, compl=3, nfun=nfun(b, 3), micro=True))
+    return out
 
 
 def pool(rng, n_sub, max_n, cap, shipped=True, min_n=1, deep=False):
@@ -95,4 +109,9 @@ def pool(rng, n_sub, max_n, cap, shipped=True, min_n=1, deep=False):
             continue
         n = rng.choice(ns[-2:])          # prefer the larger complexities that still fit
         out.append(dict(runname=name, basis=b, compl=n, nfun=nfun(b, n)))
+        low = [m for m in ns if m <= 3 and m != n]
+        if low and rng.random() < 0.8:
+            # ... and the same basis at a small complexity: few labelled trees per shape, so that 5..16 ranks leave ranks idle
+            m = rng.choice(low)
+            out.append(dict(runname=name, basis=b, compl=m, nfun=nfun(b, m)))
     return out, skipped
